@@ -9,7 +9,7 @@
    docs/fixes/C14_*.diff applied (`FIXED4`: the first four, i.e. the tree after commits 2ca076d..820ad9a), `UNFIXED` the code of the unchanged tree.  `sg` = signedness of plain char. *)
 From Coq Require Import List ZArith.
 Import ListNotations.
-From V Require Import Base.Bytes Gen.C14Vars C14.Model C14.Proofs.
+From V Require Import Base.Bytes Gen.C14Vars C14.Model C14.Proofs C14.Fields.
 Local Open Scope Z_scope.
 
 (* Memory safety of the repaired handler, for every sequence of segments of any content and length, any
@@ -23,6 +23,75 @@ Theorem C14_no_fault : forall sg segs d, dev_ok d ->
   let '(d', rs) := recv_all FIXED sg d segs in Forall (fun r => faults r = []) rs /\ dev_ok d'.
 Proof. exact C14_no_fault_thm. Qed.
 Print Assumptions C14_no_fault.
+
+(* Writes stay inside their destination and inside the settings record (fault code 3 never occurs; the
+   candidate record keeps its size), as a corollary of C14_no_fault. *)
+Theorem C14_writes_inside_record : forall sg segs d, dev_ok d ->
+  Forall (fun r => ~ In 3 (faults r)) (snd (recv_all FIXED sg d segs)) /\
+  len (dcfg (fst (recv_all FIXED sg d segs))) = CFG_SIZE.
+Proof. exact C14_writes_inside_record_thm. Qed.
+Print Assumptions C14_writes_inside_record.
+
+(* Every text setting stays NUL-terminated inside its field: for every device state whose Email/Username
+   (dev_ok) and WIFI_SSID, WIFI_PWD, Server, MqttTopicPrefix (dev_ok2: `fterm F` for the four fields of TF4)
+   are terminated in place, and every sequence of segments, the same holds afterwards.
+   (The password is the exception by design: LocationPwd/Password may be full, its rest lives behind the
+   Email terminator; see C14_password_terminated.) *)
+Theorem C14_fields_terminated_in_place : forall sg segs d, dev_ok d -> dev_ok2 d ->
+  let d' := fst (recv_all FIXED sg d segs) in dev_ok d' /\ dev_ok2 d'.
+Proof. exact C14_text_fields_thm. Qed.
+Print Assumptions C14_fields_terminated_in_place.
+
+(* The password: after any segment sequence it is terminated inside the Password field, or (long password: field
+   full by design) the string behind the name terminator is terminated inside the Email field or has no room there
+   (pwd_ok: two terminators inside Email, or the last byte of Email is the terminator). *)
+Theorem C14_password_terminated : forall sg segs d, dev_ok d -> pwd_ok (dcfg d) ->
+  pwd_ok (dcfg (fst (recv_all FIXED sg d segs))).
+Proof. exact C14_password_terminated_thm. Qed.
+Print Assumptions C14_password_terminated.
+
+(* Passwords submitted empty keep their previous value (one unsplit request): when every recognised pwd=/mwd= of the
+   request has an empty value (`empty_pwds`: the segment ends or '&' follows the '='; in particular when there is
+   none), every byte of the Password field is unchanged.  The absent case is the corollary below.
+   (Still decided by the monitor only: equality of the overflow part behind a *changed* name — effective password,
+   seeded change C14_m2 — and the Wi-Fi password submitted empty; see the report.) *)
+Theorem C14_empty_password_kept : forall sg d seg i,
+  dev_ok d -> O_LocationPwd <= i < O_LocationPwd + PWD_MAX -> empty_pwds seg ->
+  nthz (dcfg (fst (recv FIXED sg d seg))) i = nthz (dcfg d) i.
+Proof. exact C14_empty_password_kept_thm. Qed.
+Print Assumptions C14_empty_password_kept.
+
+Theorem C14_absent_password_kept : forall sg d seg i,
+  dev_ok d -> O_LocationPwd <= i < O_LocationPwd + PWD_MAX ->
+  (forall a r, opens_at seg a r -> nthz r 5 <> 2) ->
+  nthz (dcfg (fst (recv FIXED sg d seg))) i = nthz (dcfg d) i.
+Proof. exact C14_absent_password_kept_thm. Qed.
+Print Assumptions C14_absent_password_kept.
+
+(* Settings that do not appear keep their previous values (one unsplit request = one call): a byte of the
+   record outside Password/Email that no recognised `name=` of the request can write — neither through the
+   destination buffer of its table row nor through its action (`safe_row`), and no Flags byte when `pro=`
+   occurs — is unchanged.  Wi-Fi password bytes are included (restored when submitted empty). *)
+Theorem C14_absent_unchanged : forall sg d seg i,
+  dev_ok d -> 0 <= i < CFG_SIZE -> ~ pw_area i ->
+  (forall a r, opens_at seg a r -> safe_row i r) ->
+  ((exists a, 0 <= a /\ pro_at seg a) -> ~ (O_Flags <= i < O_Flags + 4)) ->
+  nthz (dcfg (fst (recv FIXED sg d seg))) i = nthz (dcfg d) i.
+Proof. exact C14_absent_unchanged_thm. Qed.
+Print Assumptions C14_absent_unchanged.
+
+(* Numeric settings, for what ends up stored after a whole request (lifted through both loops, the password
+   logic and the commit block): port unchanged or 1..65535 (when the request has no `lid=`: LocationID and
+   Port share their bytes), QoS unchanged or 0..2, each time margin unchanged or -1..100. *)
+Theorem C14_numeric_ranges : forall sg d seg, dev_ok d ->
+  let c' := dcfg (fst (recv FIXED sg d seg)) in
+  ((forall a r, opens_at seg a r -> nthz r 0 <> VAR_LID) -> port_of c' = port_of (dcfg d) \/ 1 <= port_of c' <= 65535) /\
+  (nthz c' O_MqttQoS = nthz (dcfg d) O_MqttQoS \/ 0 <= nthz c' O_MqttQoS <= 2) /\
+  (forall k, 0 <= k < 4 ->
+     nthz c' (O_AdditionalTimeMargin + k) = nthz (dcfg d) (O_AdditionalTimeMargin + k) \/
+     -1 <= s8 (nthz c' (O_AdditionalTimeMargin + k)) <= 100).
+Proof. exact C14_numeric_ranges_thm. Qed.
+Print Assumptions C14_numeric_ranges.
 
 (* Save gate: the stored configuration changes (and flash is written) only when the connection's request
    type is POST — set only by a first segment that begins with "POST / HTTP" — and at least four fields were matched. *)
@@ -97,3 +166,7 @@ Print Assumptions C14_stale_tail_refuted.
 Example C14_dev_ok_satisfiable : dev_ok {| dcfg := zeros CFG_SIZE; dcmd := None; dpv := pv0 |}.
 Proof. exact dev0_ok. Qed.
 Print Assumptions C14_dev_ok_satisfiable.
+
+Example C14_dev_ok2_satisfiable : dev_ok2 {| dcfg := zeros CFG_SIZE; dcmd := None; dpv := pv0 |} /\ pwd_ok (zeros CFG_SIZE).
+Proof. exact dev0_ok2. Qed.
+Print Assumptions C14_dev_ok2_satisfiable.
